@@ -376,6 +376,11 @@ impl PubSubManager {
 /// Supports Redis glob-style patterns: `*`, `?`, character classes `[abc]`, `[a-z]`, `[^x]`
 /// and `\` to take the next pattern byte literally.
 pub fn pattern_matches(pattern: &[u8], channel: &[u8]) -> bool {
+    let mut skip_longer_matches = false;
+    pattern_matches_impl(pattern, channel, &mut skip_longer_matches)
+}
+
+fn pattern_matches_impl(pattern: &[u8], channel: &[u8], skip_longer_matches: &mut bool) -> bool {
     let mut p = 0;
     let mut c = 0;
     
@@ -391,10 +396,18 @@ pub fn pattern_matches(pattern: &[u8], channel: &[u8]) -> bool {
                 }
                 // try every split point for the rest of the pattern
                 for start in c..=channel.len() {
-                    if pattern_matches(&pattern[p + 1..], &channel[start..]) {
+                    if pattern_matches_impl(&pattern[p + 1..], &channel[start..], skip_longer_matches) {
                         return true;
                     }
+                    if *skip_longer_matches {
+                        return false;
+                    }
                 }
+                // The rest of the pattern matches nowhere in the rest of the text: an earlier `*`
+                // taking more of the text cannot change that. Without this cut the search is
+                // exponential in the number of stars (PSUBSCRIBE *a*a*a*a*a*a*a*a*a*a*a*a*b stalled
+                // the event loop for many seconds per PUBLISH).
+                *skip_longer_matches = true;
                 return false;
             }
             b'?' => {
